@@ -393,6 +393,34 @@ def build(run):
             return ("%s-pause-amount" % engine.lower(), "PAUSE_AMOUNT %r on %r captures %r" % (amt, s, caps), {"s": s, "captures": caps})
         run.smt("Z-C13-b.%s.pause_amount_found" % engine.lower(), q, get=("n1",), witness=w_amt,
                 claim="PAUSE_AMOUNT finds a number in every emitted pause tag")
+        # (4) the captured amount is parsed with parse::<usize>(): a digit string that does not fit usize must not panic
+        xml_fn = imp.find("fn merge_pauses_xml")
+        run.uses(xml_fn)
+        mp = re.search(r"parse::<usize>\(\)\s*\.\s*(\w+)", xml_fn.text)
+        lid = "Z-C13-b.%s.pause_amount_parses" % engine.lower()
+        if mp is None:
+            raise slicer.SliceError("merge_pauses_xml: parse::<usize>() of the pause amount not found")
+        if mp.group(1) not in ("unwrap", "expect"):
+            run.queries += 1
+            run.holds(lid, note="(parse failure is handled by .%s: no obligation on the digits)" % mp.group(1))
+        else:
+            big = '(re.++ (re.range "1" "9") ((_ re.loop 20 20) (re.range "0" "9")) (re.* (re.range "0" "9")))'      # >= 10^20 > 2^64
+            q = "(declare-const n1 String)(declare-const n1b String)(declare-const sp String)\n(assert (str.in_re n1 %s))(assert (str.in_re n1b %s))(assert (str.in_re sp %s))\n" \
+                "(assert (str.in_re (str.++ %s sp %s) %s))" % (big, digits, SPO, e_term, e_term.replace("n1", "n1b"), rxsmt.core_lang(cons))
+
+            def w_parse(model, engine=engine, amt=amt, cons=cons, emitted=emitted):
+                s = emitted.replace("{}", model["n1"]) + model["sp"] + emitted.replace("{}", model["n1b"])
+                caps = rxsmt.captures_real(amt, s)
+                if caps is None or caps[1] is None or int(caps[1]) < 2 ** 64:
+                    return None
+                esc = s.replace("&", "&amp;").replace("<", "&lt;").replace(">", "&gt;")
+                res = mcprobe([("pref", "TTS " + engine), ("mathml", "<math><mtext>" + esc + "</mtext></math>"), "speech", ("pref", "TTS None")])
+                if not any(r[0] in ("PANIC", "ABORT") for r in res):
+                    return None
+                return ("%s-pause-amount-overflow" % engine.lower(), "merge_pauses_xml parses the amount %r captured by PAUSE_AMOUNT with parse::<usize>().unwrap(): get_spoken_text panics (TTS=%s, text %r; also reachable with PauseFactor=1e30)" % (caps[1], engine, s),
+                        {"s": s, "api": res[2:3]})
+            run.smt(lid, q, get=("n1", "n1b", "sp"), witness=w_parse, vacuity=None,
+                    claim="no pair of pause tags matched by CONSECUTIVE_BREAKS carries an amount that parse::<usize>().unwrap() cannot read")
 
 
 def _ite(var, defs):
